@@ -248,6 +248,7 @@ func init() {
 		c.rulesR5hist2()
 		c.rulesR5getmach()
 		c.rulesR6misc("C17", nil)
+		c.rulesR6recmono()
 		c.rulesC17ord()
 		c.rulesR3misc("C17")
 		c.rulesR3misc("C14") // C14.net: a history bound to the mirror records what the tracers are told
